@@ -148,7 +148,7 @@ func (g *Gate) findMemoInvariants(s *Summary) bool {
 									ok = false
 									continue
 								}
-								pre := u.bdd.And(u.bdd.And(act.RC[pr], u.ToBool(kv)), hyp)
+								pre := u.bdd.And(u.bdd.And(edgeCondOf(u, act, pr, l.Header), u.ToBool(kv)), hyp)
 								if !u.bdd.Implies(pre, u.bdd.Iff(u.ToBool(pv), vRef)) {
 									ok = false
 								}
@@ -177,7 +177,7 @@ func (g *Gate) findMemoInvariants(s *Summary) bool {
 						}
 						kNext := u.ToBool(kv)
 						for leaf, cond := range u.Leaves(pv) {
-							c := u.bdd.And(act.RC[pr], cond)
+							c := u.bdd.And(edgeCondOf(u, act, pr, l.Header), cond)
 							if c == False {
 								continue
 							}
